@@ -348,7 +348,7 @@ Proof.
   destruct Hhead as (c0 & r & Es & Hc0).
   assert (Htrim : utrim (print_query sp q) = print_query sp q).
   { rewrite Es. apply (utrim_id c0 r body cl); [rewrite <- Es; exact Ebody|apply (alpha_outc c0 Hc0)|exact Hcl]. }
-  unfold parse_command. rewrite Htrim.
+  unfold parse_command, parse_command_with. rewrite Htrim.
   (* the tokenizer finds nothing invalid *)
   assert (Hlex : lex_ok false (print_query sp q) = true).
   { specialize (Hn []). rewrite app_nil_r in Hn. rewrite Hn. reflexivity. }
